@@ -559,11 +559,48 @@ pub fn run_case<T>(f: impl Future<Output = T>) -> T {
 }
 
 /// Installs a panic hook that stays silent (the harness reports panics itself).
+thread_local! {
+    /// source location of the most recent non-scripted panic on this thread
+    static LAST_PANIC_AT: std::cell::RefCell<Option<String>> = const { std::cell::RefCell::new(None) };
+}
+
+/// Where the most recent (non-scripted) panic of this thread was raised.
+pub fn last_panic_location() -> Option<String> {
+    LAST_PANIC_AT.with(|l| l.borrow().clone())
+}
+
 pub fn install_quiet_panic_hook() {
     std::panic::set_hook(Box::new(|info| {
         if info.payload().is::<ScriptedPanic>() {
             return;
         }
+        // innermost frame that is neither std/core/alloc nor panic machinery: whose code panicked
+        let bt = std::backtrace::Backtrace::force_capture().to_string();
+        let origin = bt
+            .lines()
+            .map(|l| l.trim())
+            .filter(|l| l.chars().next().map_or(false, |c| c.is_ascii_digit()))
+            .map(|l| l.splitn(2, ": ").nth(1).unwrap_or("").to_string())
+            .find(|f| {
+                !(f.starts_with("std::")
+                    || f.starts_with("core::")
+                    || f.starts_with("alloc::")
+                    || f.starts_with("<std::")
+                    || f.starts_with("<core::")
+                    || f.starts_with("<alloc::")
+                    || f.contains("rust_begin_unwind")
+                    || f.contains("rust_panic")
+                    || f.contains("panic_fmt")
+                    || f.contains("panicking")
+                    || f.contains("install_quiet_panic_hook")
+                    || f.contains("backtrace"))
+            })
+            .unwrap_or_default();
+        let at = info
+            .location()
+            .map(|l| format!("{}:{} in {}", l.file(), l.line(), origin))
+            .or(Some(origin));
+        LAST_PANIC_AT.with(|l| *l.borrow_mut() = at);
         if std::env::var_os("VCHECK_SHOW_PANICS").is_some() {
             eprintln!("[panic] {info}");
         }
